@@ -900,6 +900,7 @@ class BaseWorkflow(object, metaclass=abc.ABCMeta):
             task.lst = task.lft - task.remaining_work_amount
 
         # 3. Calculate PERT information of all tasks
+        calculated_task_id_set = set(id(task) for task in output_task_set)
         while len(output_task_set) > 0:
             prev_task_set = set()
             for output_task in output_task_set:
@@ -926,9 +927,10 @@ class BaseWorkflow(object, metaclass=abc.ABCMeta):
                     else:
                         lft = output_task.lst
                         lst = lft - prev_task.remaining_work_amount
-                    if pre_lft < 0 or pre_lft >= lft:
+                    if id(prev_task) not in calculated_task_id_set or pre_lft >= lft:
                         prev_task.lst = lst
                         prev_task.lft = lft
+                        calculated_task_id_set.add(id(prev_task))
                     prev_task_set.add(prev_task)
 
             output_task_set = prev_task_set
